@@ -14,8 +14,8 @@ Definition seg_ok (ok : Z -> bool) (s : list Z) : bool :=
   match s with [] => false | _ => forallb ok s end.
 
 (* one or more non-empty segments separated by single dots *)
-Definition valid_pattern (s : list Z) : bool := forallb (seg_ok pat_char_ok) (split_on dot s).
-Definition valid_path (s : list Z) : bool := forallb (seg_ok path_char_ok) (split_on dot s).
+Definition valid_pattern (s : list Z) : bool := forallb (seg_ok pat_char_ok) (split_on dot (ascii_ws s)).
+Definition valid_path (s : list Z) : bool := forallb (seg_ok path_char_ok) (split_on dot (ascii_ws s)).
 
 (* Matcher::new: the empty pattern is accepted and means "everything" *)
 Definition matcher_accepts (s : list Z) : bool :=
